@@ -60,6 +60,14 @@ pub fn variants_of(base: &Opts, schema: &SchemaDoc) -> Vec<(String, Opts)> {
     o.custom_scalars_module = Some("super::scal".into());
     out.push(("custom scalars module".into(), o));
     let enums: Vec<String> = schema.defs.iter().filter_map(|d| if let TypeDef::Enum { name, .. } = d { Some(name.clone()) } else { None }).collect();
+    // the same trait named by its path (derive lists take paths): generated enums carry a hand-written
+    // Serialize impl, so they are all supplied by the consumer in this setting
+    if base.response_derives.as_deref().map(|d| d.split(',').any(|t| t.trim() == "Serialize")).unwrap_or(false) {
+        let mut o = base.clone();
+        o.response_derives = base.response_derives.as_ref().map(|d| d.split(',').map(|t| if t.trim() == "Serialize" { "serde::Serialize" } else { t.trim() }).collect::<Vec<_>>().join(", "));
+        o.extern_enums = enums.clone();
+        out.push(("Serialize named by path".into(), o));
+    }
     if !enums.is_empty() {
         let mut o = base.clone();
         o.extern_enums = enums.clone();
@@ -94,6 +102,8 @@ pub fn run(outdir: &Path, tier: &str, seed: u64, shards: usize, replay: Option<S
         }
         // type, enum and member names that normalization = rust spells differently
         ps.extend(crate::c01dir::snake_case_types().into_iter().take(1));
+        // nullable lists under skip_serializing_none in a response that derives Serialize
+        ps.extend(crate::c01dir::skipped_nullable_lists());
         for (i, mut p) in crate::c04dir::directed().into_iter().filter(|p| !p.tags.iter().any(|t| t == "directed-defaults-k14")).enumerate() {
             if i % 7 == 0 {
                 p.opts.response_derives = Some("Serialize".into());
